@@ -32,13 +32,15 @@ func matchWorker(e *Eng, fn *ssa.Function) (*ssa.Function, *ssa.Call) {
 }
 
 // routeMatchAccumulator decides C07.1 for the worker form.  With W(node, list, labels) = (list', matched):
-//   (wrapper) Match returns the list of W(r, empty, lset);
-//   (a) the node's matchers fail ⇒ W returns (list, false) without consulting a child;
-//   (b) otherwise the children are consulted in configuration order, each with the list the previous
-//       one returned (the first with the list handed in) and the same labels, on every iteration;
-//   (c) the loop is left early only, and then always, after a child that matched and has continue unset;
-//   (d) the node itself is appended iff the list did not grow; (e) W returns (that list, true) and nothing else
-//       is ever put on the list.
+//
+//	(wrapper) Match returns the list of W(r, empty, lset);
+//	(a) the node's matchers fail ⇒ W returns (list, false) without consulting a child;
+//	(b) otherwise the children are consulted in configuration order, each with the list the previous
+//	    one returned (the first with the list handed in) and the same labels, on every iteration;
+//	(c) the loop is left early only, and then always, after a child that matched and has continue unset;
+//	(d) the node itself is appended iff the list did not grow; (e) W returns (that list, true) and nothing else
+//	    is ever put on the list.
+//
 // By induction a matching node adds at least one entry (d), a non-matching one none (a), so "the list did
 // not grow" is "no child matched".
 func routeMatchAccumulator(o *Ob, fn, w *ssa.Function, outer *ssa.Call) {
